@@ -500,6 +500,22 @@ PROPS["C02"].jobs += [
 ]
 
 
+# ---- C12 quantifies over "all executors": staged histories on the task executors and on the target/source executors. Oracles: the
+# sequential target/source executor against the model (values of the union of the flags, per call only requested operators, none above the
+# working level); every task executor bit-identical to the sequential executor given the same history, per call only requested operators
+PROPS["C12"].jobs += [
+    Job("tsm-seq-d3", tsm(0, 3), quick=(2, 500, 100), thorough=(16, 4000, 100)),
+    Job("tsm-seq-d2", tsm(0, 2), quick=(1, 500, 100), thorough=(16, 4000, 100)),
+    Job("omp-d3", sched(1, 3), quick=(2, 300, 100), thorough=(16, 3000, 100)),
+    Job("specx-d3", sched(2, 3), quick=(1, 300, 100), thorough=(16, 3000, 100)),
+    Job("starpu-d3", sched(3, 3), quick=(1, 300, 100), thorough=(16, 3000, 100)),
+    Job("omp-tsm-d3", tsm(1, 3), quick=(1, 300, 100), thorough=(16, 3000, 100)),
+    Job("specx-tsm-d3", tsm(2, 3), quick=(1, 300, 100), thorough=(16, 3000, 100)),
+    Job("starpu-tsm-d3", tsm(3, 3), quick=(1, 300, 100), thorough=(16, 3000, 100)),
+]
+PROPS["C12"].assumptions = SCHED_ASSUME
+
+
 # ---- target/source trees in C13 (rebuild), C07 (structure of both trees), C06 (construction of both trees) ---------------------------------
 PROPS["C13"].jobs += [Job("tsm-seq-d3", tsm(0, 3), quick=(3, 450, 100), thorough=(16, 3000, 100)), Job("tsm-seq-d2", tsm(0, 2), quick=(2, 450, 100), thorough=(16, 3000, 100))]
 PROPS["C07"].jobs += [Job("tsm-seq-d3", tsm(0, 3), quick=(2, 600, 100), thorough=(16, 3000, 100))]
